@@ -153,10 +153,10 @@ def gen_cases(rng, tier):
                 w['env']['die_at_cut'] = die
             add('c%d' % n, w, 'cut')
     # (e) the child cannot be started
-    for _ in range(2):
+    for errno_name in ('ENOMEM', 'EAGAIN', 'ENOENT', 'EACCES'):
         n += 1
         w = make_world('s%d' % n, rng, 1, 'plain')
-        w['env'] = {'spawn_fail': ['*']}
+        w['env'] = {'spawn_fail': ['*'], 'spawn_errno': errno_name}
         add('s%d' % n, w, 'spawnfail')
     # the same through a resume (NotImplementedError) instead of -j
     for fam in ('ids', 'die', 'cut'):
